@@ -134,6 +134,7 @@ def one_tree(tspec, relative_style, acc, rnd, only_mp=None, force_excl=None, for
                 HUB.violation("C04", "modules-accessor-result-is-shared", "editing the list returned by EvaluableArchitecture.modules changes what the accessor returns next", {"diff": sorted(again ^ first)[:12]})
         except Exception as e:  # noqa: BLE001
             acc.hist("modules_accessor_unavailable", type(e).__name__)
+        sub_modules_through_rules(full, case, rnd, acc)
         dirs = trees.all_dirs(tspec)
         names_in_tree = {p for d in dirs for p in d.split("/")}
         prefix_siblings = any(a != b and b.startswith(a) for a in names_in_tree for b in names_in_tree if a)
@@ -326,6 +327,38 @@ def one_tree(tspec, relative_style, acc, rnd, only_mp=None, force_excl=None, for
         trees.remove_tree(root)
 
 
+def sub_modules_through_rules(se, case, rnd, acc, n=3):
+    """'The sub modules of a module are exactly the modules whose dotted name extends it' - seen through the public API:
+    'sub modules of X should not import anything' fails exactly when a module whose name extends X imports a module that is
+    neither X nor below X (imports of X itself by its sub modules are skipped: the docs are silent on them)."""
+    from pytestarch import Rule
+
+    nodes, imps = se.nodes, se.imps
+    parents = sorted(x for x in nodes if any(is_ancestor(x, m) for m in nodes))
+    if not parents:
+        return
+    for x in rnd.sample(parents, min(n, len(parents))):
+        below = {m for m in nodes if is_ancestor(x, m)}
+        for direction, leaving in (("import_anything", [(a, b) for a, b in imps if a in below and b not in below]), ("be_imported_by_anything", [(a, b) for a, b in imps if b in below and a not in below])):
+            ends = {b for a, b in leaving} if direction == "import_anything" else {a for a, b in leaving}
+            if x in ends:
+                continue  # an import between X and its own sub modules: ambiguous, not judged
+            expect = "fail" if leaving else "pass"
+            rule = getattr(Rule().modules_that().are_sub_modules_of(x).should_not(), direction)()
+            HUB.case = dict(case, sub_modules_of=x)
+            try:
+                rule.assert_applies(se.evaluable)
+                got = "pass"
+            except AssertionError:
+                got = "fail"
+            except Exception as e:  # noqa: BLE001
+                got = f"error:{type(e).__name__}"
+            acc.evaluated()
+            acc.count("sub_module_sets_checked_through_rules")
+            if got != expect:
+                HUB.violation("C04", "sub-modules-differ-from-dotted-name-extension", f"'sub modules of {x} should not {direction}' gave {got}; by the module names {len(below)} modules lie below {x} and {len(leaving)} imports leave them", {"module": x, "below": sorted(below)[:12], "leaving": sorted(leaving)[:8]})
+
+
 def replay(case, acc):
     spec = case["spec"]
     if case.get("hint"):
@@ -337,7 +370,7 @@ def floors(acc, tier):
     why = []
     if acc.counters["scans_judged"] < 200:
         why.append(f"only {acc.counters['scans_judged']} scans judged")
-    for c, n in (("subscan_equivalences", 100), ("entry_point_equivalences", 100), ("prefix_sibling_trees", 10), ("via_prefix_statements", 10), ("include_mode_scans", 30), ("sibling_directory_exclusion_scans", 10), ("root_named_package_scans", 20), ("trees_with_symlinked_package", 10), ("symlinked_root_scans", 30), ("regex_exclusion_scans_with_groups_and_backreferences", 10), ("path_spelling_variants", 100), ("scans_with_patterns_in_another_container", 20), ("modules_accessor_reads", 100), ("regex_exclusions_ending_in_a_separator", 10)):
+    for c, n in (("subscan_equivalences", 100), ("entry_point_equivalences", 100), ("prefix_sibling_trees", 10), ("via_prefix_statements", 10), ("include_mode_scans", 30), ("sibling_directory_exclusion_scans", 10), ("root_named_package_scans", 20), ("trees_with_symlinked_package", 10), ("symlinked_root_scans", 30), ("regex_exclusion_scans_with_groups_and_backreferences", 10), ("path_spelling_variants", 100), ("scans_with_patterns_in_another_container", 20), ("modules_accessor_reads", 100), ("regex_exclusions_ending_in_a_separator", 10), ("sub_module_sets_checked_through_rules", 300)):
         if acc.counters[c] < n:
             why.append(f"{c}: only {acc.counters[c]}")
     if acc.counters["scan_model_errors"]:
